@@ -227,6 +227,7 @@ func runC20(c *Ctx) {
 	c.r209(x, "R20.9")
 	c.r2010(x)
 	c.r2011(x, "R20.11")
+	c.r2012(x)
 }
 
 // R20.8 (= R19.11): taking the backup does not destroy a file that is already there.
@@ -2254,7 +2255,25 @@ func (c *Ctx) r2010(x *cliCtx) {
 			case *ast.IndexExpr:
 				// a look-up of a destination in a map that is filled with sources
 				if _, isMap := info.TypeOf(e.X).Underlying().(*types.Map); isMap && strings.Contains(nospace(str(e.Index)), ".dst") && srcMaps[str(e.X)] {
-					hit = true
+					// … whose hit is refused: the if statement that makes the look-up returns an error in its body (a look-up that
+					// only finds out whether the task overwrites its own input does not count)
+					for p := c.P.Parent(e); p != nil; p = c.P.Parent(p) {
+						ifs, ok := p.(*ast.IfStmt)
+						if !ok {
+							if _, isStmt := p.(ast.Stmt); isStmt && p != ast.Node(ifs) {
+								if _, isAssign := p.(*ast.AssignStmt); !isAssign {
+									break
+								}
+							}
+							continue
+						}
+						for _, st := range ifs.Body.List {
+							if rs, ok := st.(*ast.ReturnStmt); ok && len(rs.Results) > 0 && !isNilExpr(rs.Results[len(rs.Results)-1]) {
+								hit = true
+							}
+						}
+						break
+					}
 				}
 			case *ast.CallExpr:
 				if strings.HasSuffix(calleeName(info, e), ".SameFile") && len(e.Args) == 2 {
@@ -3061,4 +3080,129 @@ func (c *Ctx) r1924(x *cliCtx) {
 		}
 	}
 	c.R.Floor(rule, "tasks created for files named on the command line", n, 1)
+}
+
+// R20.12: the backup file of an in-place task is not a file of another task.
+func (c *Ctx) r2012(x *cliCtx) {
+	const rule = "R20.12"
+	c.R.Rule(rule, "a task that overwrites its own input renames the input to `<dst>.bak` first and removes that file afterwards (main.minify). createTasks refuses plans in which one task's output is another task's input or output — but the backup name is a file of the task as well: with `a.css` and `a.css.bak` both planned in place (`minify --type css -r -o d/ d/`), the worker for `a.css.bak` renames it away between the other worker's existence test and its rename, and one of the originals is removed as a `backup` (about 4 % of runs). For every constant suffix S that main.minify appends to the destination to name the backup, createTasks looks `<dst> + S` (in the canonical form of its other keys) up in each map in which it records the tasks' inputs and outputs, and returns an error on a hit")
+	info := x.info
+	// suffixes in minify
+	suffixes := map[string]bool{}
+	backupExpr := func(e ast.Node, want string) bool {
+		hit := false
+		ast.Inspect(e, func(z ast.Node) bool {
+			be, ok := z.(*ast.BinaryExpr)
+			if !ok || be.Op != token.ADD || !strings.HasSuffix(nospace(str(be.X)), ".dst") {
+				return true
+			}
+			if tv, ok := info.Types[be.Y]; ok && tv.Value != nil && tv.Value.Kind() == constant.String {
+				s := constant.StringVal(tv.Value)
+				if want == "" {
+					suffixes[s] = true
+				} else if s == want {
+					hit = true
+				}
+			}
+			return true
+		})
+		return hit
+	}
+	backupExpr(x.fd.Body, "")
+	if len(suffixes) == 0 {
+		c.R.Exists(rule, "main.minify/no derived backup name", c.pos(x.fd), "main.minify derives no file name from the destination")
+		return
+	}
+	fd := c.fn(rule, x.pk, "createTasks")
+	if fd == nil {
+		return
+	}
+	// the maps in which the tasks' files are recorded
+	maps := map[types.Object]string{}
+	for _, s := range c.crossCheckSites(x, fd) {
+		if !s.store {
+			continue
+		}
+		if id, ok := ast.Unparen(s.idx.X).(*ast.Ident); ok {
+			if o := info.Uses[id]; o != nil {
+				maps[o] = id.Name
+			}
+		}
+	}
+	if len(maps) < 2 {
+		c.R.Unres(rule, "main.createTasks/maps of inputs and outputs", c.pos(fd), fmt.Sprintf("%d maps found in which the tasks' files are stored, 2 expected", len(maps)))
+		return
+	}
+	var derives func(e ast.Expr, want string, depth int) bool
+	derives = func(e ast.Expr, want string, depth int) bool {
+		if backupExpr(e, want) {
+			return true
+		}
+		hit := false
+		ast.Inspect(e, func(z ast.Node) bool {
+			if id, ok := z.(*ast.Ident); ok && depth < 3 {
+				if _, isVar := info.Uses[id].(*types.Var); isVar {
+					if d := c.singleDef(x.pk, id); d != nil && derives(d, want, depth+1) {
+						hit = true
+					}
+				}
+			}
+			return !hit
+		})
+		return hit
+	}
+	var sufs []string
+	for s := range suffixes {
+		sufs = append(sufs, s)
+	}
+	sort.Strings(sufs)
+	for _, suf := range sufs {
+		for mo, name := range maps {
+			found, canonical := false, false
+			ast.Inspect(fd.Body, func(z ast.Node) bool {
+				ifs, ok := z.(*ast.IfStmt)
+				if !ok || ifs.Init == nil {
+					return true
+				}
+				as, ok := ifs.Init.(*ast.AssignStmt)
+				if !ok || len(as.Lhs) != 2 || len(as.Rhs) != 1 {
+					return true
+				}
+				ix, ok := ast.Unparen(as.Rhs[0]).(*ast.IndexExpr)
+				if !ok {
+					return true
+				}
+				id, ok := ast.Unparen(ix.X).(*ast.Ident)
+				if !ok || info.Uses[id] != mo || !derives(ix.Index, suf, 0) {
+					return true
+				}
+				// a hit is an error
+				refuses := false
+				ast.Inspect(ifs.Body, func(q ast.Node) bool {
+					if rs, ok := q.(*ast.ReturnStmt); ok && len(rs.Results) > 0 {
+						last := ast.Unparen(rs.Results[len(rs.Results)-1])
+						if lid, isId := last.(*ast.Ident); !isId || lid.Name != "nil" {
+							refuses = true
+						}
+					}
+					return true
+				})
+				if refuses {
+					found = true
+					key := ix.Index
+					if kid, ok := ast.Unparen(key).(*ast.Ident); ok {
+						if d := c.singleDef(x.pk, kid); d != nil {
+							key = d
+						}
+					}
+					if c.canonicalPath(x, fd, key) {
+						canonical = true
+					}
+				}
+				return true
+			})
+			c.R.Check(found && canonical, rule, fmt.Sprintf("main.createTasks/backup name <dst>%s looked up among the recorded %s", suf, name), c.pos(fd), "looked up in canonical form, a hit is refused",
+				fmt.Sprintf("the file `<dst>%s`, to which main.minify renames an input that is overwritten and which it removes afterwards, is not compared with the files recorded in %s (found: %v, canonical key: %v): two tasks of one run can use the same file, one as its backup and one as its input or output, and a file is lost", suf, name, found, canonical))
+		}
+	}
 }
